@@ -826,7 +826,8 @@ def mods_for(place):
     return ops
 
 
-ALL_MODS = [(op, pl) for pl in BYTE_USES for op in mods_for(pl)] + [("inscall", "m0")]
+# "delA": delete the whole block the retargeted symbol A refers to (its label slides to the next block)
+ALL_MODS = [(op, pl) for pl in BYTE_USES for op in mods_for(pl)] + [("inscall", "m0"), ("delA", "eA")]
 
 
 def _ordinary_patch(I):
@@ -851,6 +852,10 @@ def register_mod(ctx, w, mod):
     if op == "inscall":
         blk, mk = w.blocks["m0"], w.marks["m0"]
         ctx.insert_at(blk, mk["bys"], _call_patch(I))
+        return
+    if op == "delA":
+        blk = w.blocks["eA"]
+        ctx.delete_at(blk, 0, blk.size)
         return
     bname = MOD_PLACES[place]
     blk, mk = w.blocks[bname], w.marks[bname]
@@ -879,6 +884,9 @@ def mod_applicable(case):
     for op, place in case.get("mod") or ():
         if op == "inscall":
             if case["kinds"][0] == "d":
+                return False
+        elif op == "delA":
+            if case["kinds"][0] != "c":
                 return False
         elif not case["uses"] & UBIT[place]:
             return False
@@ -1142,7 +1150,7 @@ def cases_of(task):
         modsets = [
             [list(a), list(b)]
             for a, b in itertools.combinations(ALL_MODS, 2)
-            if a[1] != b[1] and "inscall" not in (a[0], b[0])
+            if a[1] != b[1] and "inscall" not in (a[0], b[0]) and "delA" not in (a[0], b[0])
         ]
     else:
         modsets = [[list(m)] for m in ALL_MODS]
@@ -1158,8 +1166,10 @@ def cases_of(task):
             for ts in table_sets:
                 uses = bs | ts
                 for op, place in mods:
-                    if op != "inscall":
+                    if op not in ("inscall", "delA"):
                         uses |= UBIT[place]
+                    if op == "delA":
+                        uses |= sum(byte_bits)  # every code/data use of A present
                 if kinds[0] == "d":
                     uses &= ~CF_USES
                 if uses in seen:
